@@ -84,14 +84,16 @@ fn eval_arc(cx: f32, cy: f32, r: f32, start: f32, sweep: f32, ctx: u8) -> Result
     let ops = &path.ops[skip..];
     let bad = |clause: &str, d: String| Err(Violation::new(format!("arc/{}", clause), case.clone(), format!("{}\nops: {}", d, ops_dbg(ops))));
     let (c, rr, s, sw) = ((cx as f64, cy as f64), r as f64, start as f64, sweep as f64);
-    let tol_r = 0.005 * rr + 1e-4;
+    // 0.5% of r (the property's tolerance for the curve approximation) plus the f32 rounding of
+    // coordinates of this magnitude
+    let tol_r = 0.005 * rr + 2e-6 * (c.0.abs() + c.1.abs() + rr);
     // first op: a straight line to the arc's starting point
     let p0 = match ops.first() {
         Some(PathOp::LineTo(p)) => (p.x as f64, p.y as f64),
         other => return bad("leading-line_to", format!("first op must be LineTo(start point), got {:?}", other)),
     };
     let sp = (c.0 + rr * s.cos(), c.1 + rr * s.sin());
-    if dist(p0, sp) > tol_r.max(1e-3 * (1.0 + rr)) {
+    if dist(p0, sp) > tol_r.max(1e-3 * rr) {
         return bad("start-point", format!("leading LineTo goes to {:?}, arc start is {:?}", p0, sp));
     }
     let mut cur = p0;
@@ -138,7 +140,7 @@ fn eval_arc(cx: f32, cy: f32, r: f32, start: f32, sweep: f32, ctx: u8) -> Result
         // end point
         let ea = if sw.abs() >= 2.0 * std::f64::consts::PI { s } else { s + sw };
         let ep = (c.0 + rr * ea.cos(), c.1 + rr * ea.sin());
-        if dist(cur, ep) > tol_r.max(1e-3 * (1.0 + rr)) + rr * slack {
+        if dist(cur, ep) > tol_r.max(1e-3 * rr) + rr * slack {
             return bad("end-point", format!("curve ends at {:?}, expected {:?}", cur, ep));
         }
     }
@@ -243,7 +245,9 @@ impl Check for C20 {
         // arc
         let pi = std::f32::consts::PI;
         let centres = [(0.0f32, 0.0f32), (5., -3.)];
-        let radii: Vec<f32> = if q { vec![0., 0.5, 10., 1000.] } else { vec![0., 1e-3, 0.5, 1., 10., 100., 1000.] };
+        // radii from far below f32::EPSILON to 1000 (the tiny ones only around the origin, where
+        // coordinates of that size are representable)
+        let radii: Vec<f32> = if q { vec![0., 1e-10, 1e-7, 0.5, 10., 1000.] } else { vec![0., 1e-20, 1e-10, 1e-7, 1e-3, 0.5, 1., 10., 100., 1000.] };
         let nstart = if deep { 192 } else { 48 };
         let starts: Vec<f32> = (0..nstart).map(|i| -2.5 * pi + (i as f32) * (5.5 * pi / nstart as f32) + if i % 3 == 0 { 0.0 } else { 0.013 * i as f32 }).collect();
         let mut sweeps: Vec<f32> = vec![0.0];
@@ -261,6 +265,9 @@ impl Check for C20 {
         run.par(starts.len(), |si, l| {
             for &(cx, cy) in &centres {
                 for &r in &radii {
+                    if r > 0. && r < 1e-5 && (cx != 0. || cy != 0.) {
+                        continue;
+                    }
                     for &sw in &sweeps {
                         for cur in [0u8, 1, 2, 3] {
                             l.states += 1;
